@@ -198,6 +198,68 @@ fn show_expansion(e: &Expansion) -> String {
     }
 }
 
+/// the text of an `xp` result computed independently of the `Expansion` API (naive oracle)
+fn naive_full(shown: &str, fields: Option<Vec<String>>, len: usize, value: &Option<Value>) -> String {
+    let p = fields.unwrap_or_default().iter().map(|f| enc_str(f)).collect::<Vec<_>>().join(",");
+    let v = match value {
+        None => "-".to_string(),
+        Some(Value::Scalar(x)) => x.split(':').map(enc_str).collect::<Vec<_>>().join(","),
+        Some(Value::Array(xs)) => xs.iter().map(|x| enc_str(x)).collect::<Vec<_>>().join(","),
+    };
+    format!("{shown};l{len};e{};p{p};v{v};cok", (len == 0) as u8)
+}
+
+/// the same through the real API: `len`, `is_empty`, `split`, `Value::split`, and the conversions
+fn real_full(var: &Variable, e: &Expansion) -> String {
+    let p = e.split().map(enc_str).collect::<Vec<_>>().join(",");
+    let v = match &var.value {
+        None => "-".to_string(),
+        Some(val) => val.split().map(enc_str).collect::<Vec<_>>().join(","),
+    };
+    let mut bad: Vec<&str> = vec![];
+    if e.as_ref() != *e {
+        bad.push("as_ref");
+    }
+    if Expansion::from(e) != *e {
+        bad.push("from-ref");
+    }
+    let owned: Option<Value> = e.clone().into_owned();
+    if Expansion::from(owned.clone()) != *e {
+        bad.push("from-option-value");
+    }
+    match &owned {
+        None => {
+            if Expansion::default() != *e || Expansion::from(None::<String>) != *e {
+                bad.push("default");
+            }
+        }
+        Some(val) => {
+            if Expansion::from(val.clone()) != *e || Expansion::from(val) != *e {
+                bad.push("from-value");
+            }
+            match val {
+                Value::Scalar(x) => {
+                    if Expansion::from(x.as_str()) != *e || Expansion::from(Some(x.clone())) != *e || Expansion::from(x) != *e {
+                        bad.push("from-str");
+                    }
+                }
+                Value::Array(xs) => {
+                    if Expansion::from(xs.clone()) != *e || Expansion::from(xs) != *e || Expansion::from(xs.as_slice()) != *e {
+                        bad.push("from-vec");
+                    }
+                }
+            }
+            let q = val.quote();
+            let r: &Value = q.as_ref();
+            if r != val {
+                bad.push("quoted-as_ref");
+            }
+        }
+    }
+    let c = if bad.is_empty() { "ok".to_string() } else { format!("BAD:{}", bad.join("+")) };
+    format!("{};l{};e{};p{p};v{v};c{c}", show_expansion(e), e.len(), e.is_empty() as u8)
+}
+
 fn show_opt_var(v: Option<&Variable>) -> String {
     v.map(show_var).unwrap_or_else(|| "-".into())
 }
@@ -212,6 +274,8 @@ trait View {
     fn get_scalar(&self, n: &str) -> Option<String>;
     /// text of the expansion of the visible variable at a location (`-` if there is none)
     fn expand_at(&self, n: &str, segs: &[(u64, String, usize)]) -> String;
+    /// the result of an `xp` item: the expansion with `len`, `is_empty`, `split`, `Value::split`, conversions
+    fn expand_full(&self, n: &str, segs: &[(u64, String, usize)]) -> String;
 }
 
 impl View for VariableSet {
@@ -242,6 +306,12 @@ impl View for VariableSet {
         match VariableSet::get(self, n) {
             None => "-".into(),
             Some(v) => show_expansion(&v.expand(&mk_loc(segs))),
+        }
+    }
+    fn expand_full(&self, n: &str, segs: &[(u64, String, usize)]) -> String {
+        match VariableSet::get(self, n) {
+            None => "-".into(),
+            Some(v) => real_full(v, &v.expand(&mk_loc(segs))),
         }
     }
 }
@@ -468,7 +538,7 @@ impl Naive {
                 self.apply(&Op::Sq("LINENO".to_string(), Scope::Global, true));
                 "done".into()
             }
-            Op::Xp(n, segs) => format!("xp({})", self.expand_at(n, segs)),
+            Op::Xp(n, segs) => format!("xp({})", self.expand_full(n, segs)),
         }
     }
     fn key(&self) -> String {
@@ -525,6 +595,23 @@ impl View for Naive {
             None => "-".into(),
             Some(v) if v.quirk.is_some() => format!("s:{}", enc_str(&naive_line(segs).to_string())),
             Some(v) => show_value(&v.value),
+        }
+    }
+    fn expand_full(&self, n: &str, segs: &[(u64, String, usize)]) -> String {
+        match View::get(self, n) {
+            None => "-".into(),
+            Some(v) if v.quirk.is_some() => {
+                let line = naive_line(segs).to_string();
+                naive_full(&format!("s:{}", enc_str(&line)), Some(vec![line.clone()]), line.len(), &v.value)
+            }
+            Some(v) => {
+                let (fields, len) = match &v.value {
+                    None => (None, 0),
+                    Some(Value::Scalar(x)) => (Some(x.split(':').map(|t| t.to_string()).collect()), x.len()),
+                    Some(Value::Array(xs)) => (Some(xs.clone()), xs.len()),
+                };
+                naive_full(&show_value(&v.value), fields, len, &v.value)
+            }
         }
     }
 }
@@ -669,7 +756,7 @@ fn apply_real(vs: &mut VariableSet, op: &Op) -> String {
             vs.init();
             "done".into()
         }
-        Op::Xp(n, segs) => format!("xp({})", View::expand_at(&*vs, n, segs)),
+        Op::Xp(n, segs) => format!("xp({})", View::expand_full(&*vs, n, segs)),
         Op::PushR(_) | Op::PushV | Op::Pop => unreachable!(),
     });
     // the documented panic of `get_or_new(_, Scope::Volatile)` without a volatile top context
@@ -796,6 +883,9 @@ fn rop_script(k: &str) -> Option<(&'static str, &'static str, &'static [&'static
         "optarg" => ("OPTARG=0\nreadonly OPTARG\ngetopts a: o -a v\necho r$?", "OPTARG", &["o", "OPTIND"]),
         "optargu" => ("OPTARG=0\nreadonly OPTARG\ngetopts a o -a\necho r$?", "OPTARG", &["o", "OPTIND"]),
         "linenoas" => ("readonly LINENO\nLINENO=5\necho r$?", "LINENO", &[]),
+        // session 4: the Portable option in SetVariables::execute (no read-only target: oracle `-`)
+        "portexp" => ("set -o portable\ncommand export 1a=1 o=2\necho r$?", "1a", &["o"]),
+        "portro" => ("set -o portable\ncommand readonly PWD=5 o=1\necho r$?", "PWD", &["o"]),
         _ => return None,
     })
 }
@@ -833,7 +923,9 @@ fn rop_case(k: &str) -> (String, String) {
     }
     lines.extend(after.iter().cloned());
     // oracle, the clause itself: the read-only variable is what it was when it was marked
-    let oracle = if before.first() == after.first() && after.first().map(|v| v.ends_with("/1")).unwrap_or(false) {
+    let oracle = if k.starts_with("port") {
+        "-".to_string()
+    } else if before.first() == after.first() && after.first().map(|v| v.ends_with("/1")).unwrap_or(false) {
         "ok".to_string()
     } else {
         format!("FAIL:read-only {target} changed: {:?} -> {:?}", before.first(), after.first())
